@@ -65,9 +65,10 @@ pub fn ast_expr(e: &ast::Expression) -> Value {
         Variable { meta, name, access } => json!(["var", ast_meta(meta), name, access.iter().map(ast_access).collect::<Vec<_>>()]),
         Number(meta, n) => json!(["num", ast_meta(meta), s(n)]),
         Call { meta, id, args } => json!(["call", ast_meta(meta), id, args.iter().map(ast_expr).collect::<Vec<_>>()]),
-        AnonymousComponent { meta, id, params, signals, names, .. } => json!(["anon", ast_meta(meta), id,
+        AnonymousComponent { meta, id, params, signals, names, is_parallel } => json!(["anon", ast_meta(meta), id,
             params.iter().map(ast_expr).collect::<Vec<_>>(), signals.iter().map(ast_expr).collect::<Vec<_>>(),
-            match names { Some(ns) => Value::Array(ns.iter().map(|(op, n)| json!([ast_assign(op), n])).collect()), None => s("-") }]),
+            match names { Some(ns) => Value::Array(ns.iter().map(|(op, n)| json!([ast_assign(op), n])).collect()), None => s("-") },
+            if *is_parallel { "1" } else { "0" }]),
         ArrayInLine { meta, values } => json!(["arr", ast_meta(meta), values.iter().map(ast_expr).collect::<Vec<_>>()]),
         Tuple { meta, values } => json!(["tuple", ast_meta(meta), values.iter().map(ast_expr).collect::<Vec<_>>()]),
     }
